@@ -98,7 +98,8 @@ pub fn solo_reply(stream: &[u8]) -> (Vec<u8>, bool) {
 }
 
 fn finished(st: &St, c: usize) -> bool {
-    st.pipes[c].server_dropped >= 3
+    // (a stream whose split was made to fail never has a reader / writer half)
+    st.pipes[c].server_dropped >= if st.pipes[c].split_fails { 1 } else { 3 }
 }
 
 impl ListenWorld {
@@ -259,7 +260,11 @@ impl World for ListenWorld {
             return Some((self.sig("listen-panicked"), p.clone()));
         }
         if let Some((t, m)) = st.panics.first() {
-            return Some((self.sig("worker-panicked"), format!("thread {} panicked: {}", st.threads[*t].name, m)));
+            // with an injected descriptor fault the worker's own unwrap() may panic: only what happens to the *other*
+            // connections is judged in those scenarios
+            if !self.spec.conns.iter().any(|c| c.name == "nosplit") {
+                return Some((self.sig("worker-panicked"), format!("thread {} panicked: {}", st.threads[*t].name, m)));
+            }
         }
         if self.spec.mode == Mode::Stopping {
             // the loop must stop at the first timeout answer after the flag was set
@@ -391,8 +396,12 @@ pub fn build_listen(spec: ListenSpec) -> impl Fn(&Sched) -> Scenario {
     let expected: Vec<(Vec<u8>, bool)> = spec.conns.iter().map(|c| solo_reply(&c.chunks.concat())).collect();
     move |s: &Sched| {
         let n = spec.conns.len();
-        for _ in 0..n {
-            s.new_pipe();
+        for c in 0..n {
+            let id = s.new_pipe();
+            // role "nosplit": injected fault, the server cannot split this connection's stream
+            if spec.conns[c].name == "nosplit" {
+                s.lock().pipes[id].split_fails = true;
+            }
         }
         let dir = tempfile::Builder::new().prefix("vsl").tempdir_in("/dev/shm").or_else(|_| tempfile::tempdir()).unwrap();
         let path = dir.path().join("s");
